@@ -71,6 +71,21 @@ def oracle(ctx):
             ctx.count("invalid_method")
             if g != "err ValueError":
                 ctx.violation("easter(%d, %d) should raise ValueError, got %s" % (y, m, g), {"year": y, "method": m}, {"impl": g})
+    # method values that are not integers: everything but the three documented constants must raise ValueError
+    # (2.0 and True compare equal to 2 and 1 and are those methods)
+    from dateutil import easter as E
+    for y in (1583, 2024, 4099):
+        for m, want in ((2.5, "ValueError"), (1.5, "ValueError"), (0.999, "ValueError"), (3.0000001, "ValueError"), (None, "ValueError"),
+                        ("3", "ValueError"), ((3,), "ValueError"), (float("nan"), "ValueError"), (2.0, impl_easter(y, 2)), (True, impl_easter(y, 1))):
+            ctx.case((y, repr(m)), nontrivial=False); ctx.count("non_integer_method")
+            try:
+                d = E.easter(y, m); got = "ok %d %d %d" % (d.year, d.month, d.day)
+            except ValueError:
+                got = "ValueError"
+            except Exception as ex:
+                got = type(ex).__name__
+            if got != want:
+                ctx.violation("easter(%d, %r) gave %s, expected %s" % (y, m, got, want), {"year": y, "method": repr(m)}, {"impl": got})
     ctx.sample({"year": 2024, "method": 3, "impl": impl_easter(2024, 3)})
     ctx.sample({"year": 2024, "method": 2, "impl": impl_easter(2024, 2)})
     ctx.sample({"year": 326, "method": 1, "impl": impl_easter(326, 1)})
